@@ -43,7 +43,15 @@ def gen_cell(rnd):
         return ("D", day, sec)
     if k < 0.88:
         return ("TIME", rnd.choice([0, 1, 59, 3661, 43200, 86399, rnd.randint(0, 86399)]))
+    if k < 0.93:
+        # an error cell: a formula whose cached result is one of Excel's error values
+        return ("ERR", rnd.choice(sorted(ERROR_FORMULAS)))
     return ("E",)
+
+
+# error text -> a formula that evaluates to it (xlsxwriter stores the cached value as a cell of type "e")
+ERROR_FORMULAS = {"#NULL!": "=A1 B2", "#DIV/0!": "=1/0", "#VALUE!": '="a"+1', "#REF!": "=#REF!", "#NAME?": "=nosuchname", "#NUM!": "=SQRT(-1)",
+                  "#N/A": "=NA()"}
 
 
 def month_ends(y):
@@ -69,6 +77,8 @@ def write_workbook(path, sheets):
                     ws.write_boolean(y, x, c[1])
                 elif c[0] == "D":
                     ws.write_datetime(y, x, datetime.datetime.combine(c[1], datetime.time(0)) + datetime.timedelta(seconds=c[2], milliseconds=ms_of(c)), datef)
+                elif c[0] == "ERR":
+                    ws.write_formula(y, x, ERROR_FORMULAS[c[1]], None, c[1])
                 elif c[0] == "TIME":
                     ws.write_datetime(y, x, (datetime.datetime(1900, 1, 1) + datetime.timedelta(seconds=c[1], milliseconds=ms_of(c))).time(), timef)
     wb.close()
@@ -109,6 +119,9 @@ def documented_text(c):
         return t.strftime("%Y-%m-%d %H:%M:%S") if t.year >= 1000 else "%04d-%s" % (t.year, t.strftime("%m-%d %H:%M:%S"))
     if c[0] == "TIME":
         return "%02d:%02d:%02d" % (c[1] // 3600, c[1] // 60 % 60, c[1] % 60)
+    if c[0] == "ERR":
+        # not named by C16's statement; the code renders Excel's own text of the error
+        return c[1]
     return ""
 
 
@@ -134,13 +147,15 @@ def model_cell(c):
         return "C%d-%d-%d:%d" % (c[1].year, c[1].month, c[1].day, c[2])
     if c[0] == "TIME":
         return "D0:%d" % c[1]
+    if c[0] == "ERR":
+        return "X" + enc(c[1])
     return "E"
 
 
 def run(ctx):
     rnd = ctx.rnd
     ctx.rule = ("workbooks written with xlsxwriter: 1-3 sheets of 0-5 rows x 1-6 cells over all cell kinds (strings, whole numbers up to 2^53, finite floats, booleans, "
-                "dates sampled over 1900-03-01..9999-12-31 incl. every month end of sampled years, seconds of a day, pure times, date and time cells with a fraction of a second, blanks) x Sheet 1..4; documented "
+                "dates sampled over 1900-03-01..9999-12-31 incl. every month end of sampled years, seconds of a day, pure times, date and time cells with a fraction of a second, error cells (all 7 error values), blanks) x Sheet 1..4; documented "
                 "rendering computed from the values; the Lean model on the same typed cells; XlsxRowWriter round trip on string tables; truncated / corrupted "
                 "workbooks; distinct = distinct (workbook, sheet); non-trivial = workbook has at least one cell")
     n = 250 if ctx.tier == "quick" else 1500
